@@ -95,6 +95,10 @@ theorem C16_rejected_submit_returns (p : Params) (s : St) (t : Nat) (x : Task)
   · simp [submitStep, hx, hret, hph]
   · simp [emit, setReturned, hx]
 
+example : ∃ (s : St) (t : Nat) (x : Task), s.tasks[t]? = some x ∧ x.returned = false ∧ x.phase = .rejected :=
+  ⟨{ tasks := [{ phase := .rejected, returned := false, kids := [] }] }, 0, { phase := .rejected, returned := false, kids := [] },
+   rfl, rfl, rfl⟩
+
 /-- The hypotheses are satisfiable: the stopped pool of `scRejectRestart` just before its rejected Submit's check. -/
 example : ∃ (s : St) (t : Nat) (x : Task), s.tasks[t]? = some x ∧ x.returned = false ∧ x.phase = .fresh ∧
     s.writer = false ∧ s.running = false :=
@@ -427,6 +431,8 @@ theorem C16_group_restart_only_pools (s : GS) (q : Nat) (h : (SOp.restart q).ok 
   have h' : isPoolAt s.tree q = true ∧ isShut s q = true := by simpa [SOp.ok] using h
   exact ⟨h'.1, pool_not_group h'.1, h'.2⟩
 
+example : (SOp.restart 1).ok (runS {} [.base (.newGroup none), .base (.newPool 0), .shutdown 0]) = true := by decide
+
 /-- **A stopped pool only drains.**  From any state reached by the group operations (`runS {} pre`), once `Group.shutdown`
 has called `Shutdown()` on pool `q`, no later operation — in any interleaving with tasks accepted and finished
 elsewhere in the tree, pools and groups created, other shutdowns — increases `q`'s pending counter: with the pool-level
@@ -600,6 +606,9 @@ theorem C16_debounce_exec_is_latest (s s' : St) (i : Nat) (h : s' ∈ callStep s
     · simp only [List.mem_singleton] at h; subst h; left; rfl
     · simp at h
     · simp at h
+
+example : callStep { calls := [.locked], held := true } 0 = [{ calls := [.ran], held := true, execs := [1] }] := by
+  rfl
 
 /-- Non-vacuity: two callers, three calls; the task of call 1 passes its first check before call 2 is made and is
 dropped at its second check; call 2 is executed, then call 3 is made and executed. -/
